@@ -10,11 +10,16 @@ def run(prog, rep, tier):
                   "predicate classes, the named constants and every label/form producer that builds a constant from the family's libdw source use "
                   "one `code` parameter and one domain function; M1: in import_partial_units every path from the resolved-import edge "
                   "(dwarf_formref_die succeeded) reaches the push of the imported unit's children onto the traversal stack before returning.")
-    rep.not_decided = ("in-place inlining of imported units and its order, attribute order, and `@AT_x` = `attribute ?AT_x cooked value` on "
-                       "multi-hop specification/abstract_origin chains (find_attribute prefers specification, attribute_producer visits the "
-                       "last-scheduled reference first: needs a crafted input, not a structural rule).")
+    rep.clause += (" G2 (owner clause): on the same DIE graphs the DIE handed out with the attribute that `@AT_x` found is the DIE the attribute was read "
+                   "from; G3: attribute_producer interpreted from source on DIE graphs (A with optional specification/abstract_origin to S/O, those "
+                   "optionally referring on to T or to each other, attribute sets drawn from name/inline/sibling/declaration): raw = own attributes in "
+                   "stored order; cooked = own first, then every reachable name not yet yielded exactly once, never another DIE's sibling/"
+                   "declaration, numbered from 0, each value_attr wrapped with the DIE it was read from.")
+    rep.not_decided = ("in-place inlining of imported units and its order; which of two referenced DIEs wins when both carry the same attribute "
+                       "(find_attribute prefers specification, attribute_producer visits the last-scheduled reference first: the documentation fixes no order).")
     apply(rep, "G1", "single integration predicate", r_dw.g1(prog), 3)
     apply(rep, "V2", "family agreement of code and domain", r_dw.v2(prog), 14)
     apply(rep, "G2", "find_attribute finds exactly what is reachable through specification OR abstract_origin (abstract evaluation on DIE graphs)", r_dw.g2(prog), 1)
+    apply(rep, "G3", "`attribute` yields own attributes first, then each integrated name once, each wrapped with the DIE it was read from (attribute_producer interpreted on DIE graphs)", r_dw.g3(prog, tier), 1)
     apply(rep, "M1", "a resolved DW_TAG_imported_unit is always replaced by the unit's children", r_dw.m1(prog), 1)
     maybe_mutants("C06", rep, tier)
